@@ -288,6 +288,15 @@ func (c *c10) runReader(r *core.R, rng *rand.Rand, total, savedMask int, allDama
 	if nv >= 2 {
 		p1Judge(r, e, vols, p1Damage{bad: map[int]string{}, lostVols: map[int]bool{1 + rng.Intn(nv-1): true}}, rng, savedIdx, true)
 	}
+	// no parity volume at all, data intact: Verify (full check) and Repair have
+	// nothing to complain about
+	{
+		d := p1Damage{bad: map[int]string{}, lostVols: map[int]bool{}}
+		for v := 1; v <= nv; v++ {
+			d.lostVols[v] = true
+		}
+		p1Judge(r, e, vols, d, rng, savedIdx, true)
+	}
 	// every saved file lost at once (the parity volumes alone carry the set)
 	{
 		d := p1Damage{bad: map[int]string{}, lostVols: map[int]bool{}}
